@@ -431,14 +431,21 @@ func init() {
 		voff := int(vrt.VEpoch.Unix() - rtime.Now().Unix())
 		helloBadMethod, _ := captureFirst(hsCase{Transport: "direct", Browser: "firefox", Method: "plain", ProxyMethod: "nosuchmethod", SID: 4, ServerName: "example.com", Offset: voff}, uid)
 		helloBadUID, _ := captureFirst(hsCase{Transport: "direct", Browser: "firefox", Method: "plain", ProxyMethod: "shadowsocks", SID: 4, ServerName: "example.com", Offset: voff}, uidOf(1))
+		helloOK, _ := captureFirst(hsCase{Transport: "direct", Browser: "firefox", Method: "plain", ProxyMethod: "shadowsocks", SID: 4, ServerName: "example.com", Offset: voff}, uid)
 		vrt.UnseedPlainRand()
 		first := helloBadMethod
 		if c.P("first", "badmethod") == "baduid" {
 			first = helloBadUID
 		}
+		// first=genuine second=replay: the same valid handshake on two connections at once - one of them is
+		// the client, the other a replay, which is relayed like any other unauthenticated peer
+		replayPair := c.P("first", "") == "genuine"
 		second := []byte("GET /index.html HTTP/1.1\r\nHost: example.com\r\nUser-Agent: probe\r\n\r\n")
 		if c.P("second", "get") == "garbage" {
 			second = append([]byte{0x00}, patternN(300, 3)...)
+		}
+		if replayPair {
+			first, second = helloOK, helloOK
 		}
 		sc := &vrt.Scenario{
 			Opt:      vrt.Options{Delay: true, HorizonNs: int64(100 * time.Second), MemVars: true},
@@ -448,6 +455,7 @@ func init() {
 				mm.add(uidOf(0), memUser{upRate: 1 << 30, downRate: 1 << 30, upCredit: 1 << 30, downCredit: 1 << 30, expiry: 1 << 40, cap: 5})
 				r := newE2ERig(mm, nil, nil)
 				var got [][]byte
+				answered := 0
 				vrt.Go("web", func() {
 					for {
 						wc, err := r.webL.Accept()
@@ -480,10 +488,28 @@ func init() {
 							vrt.Fail("harness", "dial: %v", err)
 						}
 						conn.Write(data)
+						if replayPair {
+							conn.SetReadDeadline(time.Now().Add(10 * time.Second))
+							b := make([]byte, 16)
+							if k, _ := conn.Read(b); k >= 3 && b[0] == 0x16 && b[1] == 0x03 && b[2] == 0x03 {
+								answered++
+							}
+						}
 					})
 				}
 				wg.Wait()
 				time.Sleep(20 * time.Second)
+				if replayPair {
+					if answered != 1 || len(got) != 1 || !bytes.Equal(got[0], helloOK) {
+						n := -1
+						if len(got) > 0 {
+							n = len(got[0])
+						}
+						vrt.Fail("complete-input-is-relayed", "one valid handshake presented on two connections at once: %d were answered by the server itself, %d were relayed to the redirect target (first relayed stream: %d of %d bytes); expected one of each", answered, len(got), n, len(helloOK))
+					}
+					vrt.Observe("one-each")
+					return
+				}
 				if len(got) != 2 {
 					vrt.Fail("complete-input-is-relayed", "two peers sent complete first packets; the redirect target was contacted %d times", len(got))
 				}
@@ -704,7 +730,8 @@ func init() {
 			}
 		}
 		jobs = append(jobs, vx.Job{Scenario: "redir.pair", Params: vx.P("first", "badmethod", "second", "get"), Bound: map[bool]int{true: 2, false: 3}[q], BudgetS: 110, Weight: 5},
-			vx.Job{Scenario: "redir.pair", Params: vx.P("first", "baduid", "second", "garbage"), Bound: map[bool]int{true: 2, false: 3}[q], BudgetS: 110, Weight: 5})
+			vx.Job{Scenario: "redir.pair", Params: vx.P("first", "baduid", "second", "garbage"), Bound: map[bool]int{true: 2, false: 3}[q], BudgetS: 110, Weight: 5},
+			vx.Job{Scenario: "redir.pair", Params: vx.P("first", "genuine", "second", "replay"), Bound: map[bool]int{true: 2, false: 3}[q], BudgetS: 110, Weight: 5})
 		// a first packet naming a live session of its user but an unknown proxy method is web traffic as well
 		jobs = append(jobs, vx.Job{Scenario: "auth.second", Params: vx.P("transport", "direct"), Weight: 3})
 		jobs = append(jobs, vx.Job{Scenario: "redir.realstate", Params: vx.P("wait", "12"), Weight: 6})
